@@ -295,12 +295,12 @@ PROPS["C20"] = {
          "quick": ["VP_C20_CoreTx"],
          "thorough": []},
         {"dir": "light/rpc",
-         "quick": ["VP_C20_Block", "VP_C20_BlockByHash", "VP_C20_BlockResults", "VP_C20_Tx", "VP_C20_CommitVals"],
+         "quick": ["VP_C20_Block", "VP_C20_BlockByHash", "VP_C20_BlockResults", "VP_C20_Tx", "VP_C20_CommitVals", "VP_C20_ABCIQuery"],
          "thorough": []},
     ],
     "bounds": {
         "full-node side": "the real rpc/core Tx handler over a real kv transaction index and a block of three transactions drawn from two values (duplicates possible): the served proof validates against the data hash, proves the returned bytes and sits at the returned index",
-        "verifying client": "a concrete 3-block chain (2, 3, 0 transactions) whose header hashes are the genuine functions of the content (data hash by the real Txs.Hash, LastResultsHash by the real state.ABCIResponsesResultsHash of the previous block's DeliverTx results); light client = the C09 contract (returns the verified light block of a height); backend honest or falsifying one thing: block body under the verified header (via the wire format), a self-consistent other block, a DeliverTx result's code / data / gas used / gas wanted (symbolic wrong value), results withheld, repeated or reordered, the returned transaction bytes, a valid proof of another transaction, the index, the proof's own data; heights 1..2, both transactions; every proof the full-node side builds (Txs.Proof) validates against the data hash",
+        "verifying client": "a concrete 3-block chain (2, 3, 0 transactions) whose header hashes are the genuine functions of the content (data hash by the real Txs.Hash, LastResultsHash by the real state.ABCIResponsesResultsHash of the previous block's DeliverTx results); light client = the C09 contract (returns the verified light block of a height); backend honest or falsifying one thing: block body under the verified header (via the wire format), a self-consistent other block, a DeliverTx result's code / data / gas used / gas wanted (symbolic wrong value), results withheld, repeated or reordered, the returned transaction bytes, a valid proof of another transaction, the index, the proof's own data; heights 1..2, both transactions; every proof the full-node side builds (Txs.Proof) validates against the data hash; proven application query: a two-pair store whose simple-Merkle root of ValueOp leaves is the app hash of every header, answered through the real ABCIQueryWithOptions / ProofRuntime.VerifyValue / ProofOperators.Verify / KeyPath URL encoding, honest or falsifying the value (symbolic wrong byte), presenting the genuine proof under another key (one symbolic ASCII letter, so case-variants are the solver's choice) or renaming key and operator key together",
     },
     "stubs": ["rpcclient.Client backend and LightClient = harness objects", "sha256 concrete"],
     "outside": ["ABCIQueryWithOptions / proof runtime (IAVL-style ops)", "ConsensusParams, BlockchainInfo, websocket subscriptions", "symbolic transaction bytes (concrete here)"],
